@@ -91,7 +91,9 @@ func VerifIPFIXInsertSet() {
 	// perturbed: bad set at position p
 	p := verifCase(3)
 	kind := verifCase(2)
-	blen := verifCase(verifParam("maxbody", 6) + 1)
+	// body lengths around the decoders' "more than 4 octets left" rule, and one long enough
+	// to hold something that looks like a set of its own
+	blen := [6]int{0, 1, 4, 5, 8, 12}[verifCase(verifParam("bodies", 5))]
 	tot2 := tot + 4 + blen
 	w2 := &verifW{b: make([]byte, tot2)}
 	verifWriteHeader(w2, tot2)
